@@ -183,6 +183,23 @@ def gen_directed(rng, si):
             'damage': False, 'own_extra': False}
 
 
+def gen_removed(rng, si):
+    """a faithful candidate, but one local file disappears between the creation of the Torrent object and reuse()"""
+    sc = gen_directed(rng, si)
+    c = sc['cands'][0]
+    c['data'] = dict(sc['data'])
+    c['kind'] = 'faithful'
+    c.pop('where', None)
+    c['pieces'] = pieces_of(sc['name'], sc['single'], c['order'], c['data'], c['L'])
+    sc['cands'] = [c]
+    sc['damage'] = 'remove'
+    return sc
+
+
+def pick_scenario(rng, si):
+    return gen_removed(rng, si) if si % 12 == 5 else gen_directed(rng, si) if si % 3 == 2 else gen_scenario(rng, si)
+
+
 def lay_out(root, sc, rng):
     """write candidate torrent files; returns (paths argument, {torrent file path: candidate})"""
     tdir = os.path.join(root, 'torrents')
@@ -269,6 +286,8 @@ def run_one(root, sc, rng, ck, m, model_ok):
     if sc['damage']:
         r = rng.choice(sc['order'])
         x = rng.random()
+        if sc['damage'] == 'remove':
+            x = 1.0
         fp = cpath if sc['single'] else os.path.join(cpath, *r)
         if x < 0.6:
             local[r] = local[r][:-1] if x < 0.3 else local[r] + b'+'
@@ -444,7 +463,7 @@ def run(ck, model_ok):
     ck.rule = ('random layouts (single / up to 4 files, sizes around multiples of 16 KiB so files span 1..6 pieces and start mid-piece) x candidate sets (faithful, renamed, '
                'different file set / size, one byte changed in the first / middle / last / another piece of one file, piece length out of bounds, permuted file order, extra fields, '
                'dangling / undecodable / invalid torrent files, wrong extension) x search path shapes (file, list of files, directory, tree, several directories incl. a missing one) '
-               'x callback (none, passive, cancelling at call k) x configured piece size bounds x local file changed afterwards; oracle: C18 from the definitions; '
+               'x callback (none, passive, cancelling at call k) x configured piece size bounds x local file changed or removed after the Torrent object was created (incl. directed: faithful candidate, one local file removed); oracle: C18 from the definitions; '
                'model compared on result, copied state and callback protocol; non-trivial = distinct scenarios')
     quick = ck.tier == 'quick'
     m = Model()
@@ -453,7 +472,7 @@ def run(ck, model_ok):
     batch = 30
     for si in range(n):
         rng = random.Random(f'{ck.seed}-{ck.tier}-{si}')       # one stream per scenario: replayable in isolation
-        sc = gen_directed(rng, si) if si % 3 == 2 else gen_scenario(rng, si)
+        sc = pick_scenario(rng, si)
         sc['rng_key'] = f'{ck.seed}-{ck.tier}-{si}'
         ck.case(repr(describe(sc)))
         with Scratch() as root:
@@ -476,7 +495,7 @@ def replay(rp):
     from common import Check
     sc0 = rp['case']['scenario']
     rng = random.Random(sc0['rng_key'])
-    sc = gen_directed(rng, sc0['si']) if sc0['si'] % 3 == 2 else gen_scenario(rng, sc0['si'])
+    sc = pick_scenario(rng, sc0['si'])
     sc['rng_key'] = sc0['rng_key']
     ck = Check('C18', 'quick', 0)
     with Scratch() as root:
